@@ -22,7 +22,7 @@ MANIFEST = {
 }
 
 RULE = ("one case per declaration (File with one Decl) of: 40 hand-written seeds covering every construct named in the property; every "
-        "*.go file under the tree under test (quick: first 3000 decls) and a GOROOT/src sample with generics-heavy packages (slices, maps, "
+        "*.go file under the tree under test (quick: first 2500 decls) and a GOROOT/src sample with generics-heavy packages (slices, maps, "
         "sync/atomic, cmp, iter, ...; thorough adds go/types, reflect, net/http, runtime, internal/types/testdata ...); N random generated "
         "files (1-3 decls each: type params, instantiations, func types, tags, embedded fields, unions with ~, variadics, chan dirs, iota "
         "groups, multi-name specs, func literals), 20% of them fault-injected (BadExpr, nil FuncType/Field/Spec/Decl, wrong Tok, spec/Tok "
@@ -35,7 +35,7 @@ def run(ctx):
         "the printed header of a declaration depends only on the fields listed in hdrTable (checked against go/printer on every case)",
         "go/parser output for error-free files satisfies `supported` (checked on every corpus declaration: S1 column)",
     ]
-    common.standard(ctx, "GopModel.Props.C37", "c37", 800, 12000, RULE,
+    common.standard(ctx, "GopModel.Props.C37", "c37", 600, 12000, RULE,
                     extract=("conv",), driver="drv_conv",
                     pre=lambda c: c.lake("drv_conv"))
 
